@@ -340,6 +340,8 @@ def NoFinalIdx (ign : List Path) : Prop := ∀ g, g ∈ ign → finalIdxFree g =
 /-- an integer that `float64` holds exactly -/
 def IsFloatExact (i : Int) : Prop := i.natAbs < 2 ^ 53
 
+instance (i : Int) : Decidable (IsFloatExact i) := by unfold IsFloatExact; infer_instance
+
 /-- the roots are an integer and a float, in either order (the pairs that C19-gen-root-number is about) -/
 def numKindMix : JV → JV → Bool
   | .int _, .flt _ => true
